@@ -16,3 +16,6 @@ INVARIANT InvSecrets
 INVARIANT InvC02
 PROPERTY ActC02
 PROPERTY ActC07
+INVARIANT InvC03
+PROPERTY ActC03
+INVARIANT InvC18
